@@ -1,6 +1,8 @@
 package macat
 
 import (
+	"crypto/tls"
+	"strings"
 	"time"
 
 	"github.com/gdamore/optopia"
@@ -238,6 +240,7 @@ type stubSock struct {
 	recvEnd error
 	order   []byte // 's' / 'r' per completed SendMsg / successful RecvMsg
 	listenOpts, dialOpts []map[string]interface{}
+	endpoints            []endpointCall // every ListenOptions / DialOptions call, options as they were at the call
 	info   mangos.ProtocolInfo
 	sent   [][]byte
 	sendErr error
@@ -277,6 +280,7 @@ func (s *stubSock) Dial(string) error                  { s.dials++; return nil }
 func (s *stubSock) DialOptions(a string, o map[string]interface{}) error {
 	s.dials++
 	s.dialOpts = append(s.dialOpts, o)
+	s.endpoints = append(s.endpoints, snapshotCall("dial", a, o))
 	return nil
 }
 func (s *stubSock) NewDialer(string, map[string]interface{}) (mangos.Dialer, error) {
@@ -286,6 +290,7 @@ func (s *stubSock) Listen(string) error                                { s.liste
 func (s *stubSock) ListenOptions(a string, o map[string]interface{}) error {
 	s.listens++
 	s.listenOpts = append(s.listenOpts, o)
+	s.endpoints = append(s.endpoints, snapshotCall("bind", a, o))
 	return nil
 }
 func (s *stubSock) NewListener(string, map[string]interface{}) (mangos.Listener, error) {
@@ -594,4 +599,63 @@ func VH20h_option_order() {
 	}
 	verif.Assert(zzApply(a, "data", "y") != nil, lab+"/second-data-accepted")
 	verif.Reach("option-order")
+}
+
+type endpointCall struct {
+	kind, addr string
+	nopts      int
+	hasTLS     bool
+}
+
+func snapshotCall(kind, addr string, o map[string]interface{}) endpointCall {
+	_, has := o[mangos.OptionTLSConfig]
+	return endpointCall{kind: kind, addr: addr, nopts: len(o), hasTLS: has}
+}
+
+// VH20i_endpoints: several --bind and --connect addresses in one invocation, TLS and plain ones in every order.
+// Each address is bound / dialled exactly once, in the order given, and each gets exactly the options that belong to
+// IT: the TLS configuration iff its scheme is tls+tcp or wss, nothing else - whatever was processed before it.
+func VH20i_endpoints() {
+	lab := "C20/endpoints"
+	pool := []string{"tcp://127.0.0.1:1", "tls+tcp://127.0.0.1:2", "ipc:///tmp/x", "wss://127.0.0.1:3/p"}
+	pick := func(name string) []string {
+		n := verif.Choice(name+"-count", verif.Param("maxaddr", 2)+1) // 0..maxaddr addresses
+		var out []string
+		for i := 0; i < n; i++ {
+			out = append(out, pool[verif.Choice(name, len(pool))])
+		}
+		return out
+	}
+	binds, dials := pick("bind"), pick("dial")
+	if len(binds)+len(dials) == 0 {
+		verif.Assume(false)
+	}
+	s := &stubSock{info: mangos.ProtocolInfo{Self: mangos.ProtoPull}}
+	w := &capWriter{}
+	a := &App{sock: s, recvTimeout: Duration(0), sendTimeout: Duration(-1), sendInterval: Duration(-1), sendDelay: Duration(-1), count: 1,
+		printFormat: "raw", options: &optopia.Options{}, stdOut: w, bindAddr: binds, dialAddr: dials, noVerifyTLS: true}
+	a.tlsCfg.Certificates = []tls.Certificate{{}}
+	err := a.Run()
+	verif.Assert(err == nil, lab+"/valid-combination-of-endpoints-rejected")
+	want := append(append([]string{}, binds...), dials...)
+	verif.Assert(len(s.endpoints) == len(want), lab+"/not-every-address-used-exactly-once")
+	for i, c := range s.endpoints {
+		if i >= len(want) {
+			break
+		}
+		kind := "bind"
+		if i >= len(binds) {
+			kind = "dial"
+		}
+		verif.Assert(c.addr == want[i] && c.kind == kind, lab+"/addresses-out-of-order")
+		isTLS := strings.HasPrefix(c.addr, "tls") || strings.HasPrefix(c.addr, "wss")
+		verif.Assert(c.hasTLS == isTLS, lab+"/tls-configuration-on-the-wrong-endpoint")
+		n := 0
+		if isTLS {
+			n = 1
+		}
+		verif.Assert(c.nopts == n, lab+"/endpoint-got-options-that-are-not-its-own")
+	}
+	verif.Assert(s.closed, lab+"/socket-left-open")
+	verif.Reach("endpoints-checked")
 }
